@@ -28,9 +28,11 @@ fam('annot_keys', depth=3, maxstack=4,
 
 # lambdas whose (annotated) argument type is a pair: APPLY takes the type apart, EXEC runs the body on values of the annotated types
 fam('annot_lambda', depth=4, maxstack=3,
-    inits=[(S(NAT, i(1)),), (S(P(NAT, NAT), p(i(5), i(6))), S(NAT, i(1)))],
+    inits=[(S(NAT, i(1)),), (S(P(NAT, NAT), p(i(5), i(6))), S(NAT, i(1))),
+           (S(P(NAT, P(NAT, P(NAT, NAT))), p(i(1), p(i(2), p(i(3), i(4))))), S(NAT, i(1)))],      # a comb of four leaves to capture: the size from which the binary form writes combs as sequences
     alphabet=[('LAMBDA', P(NAT, NAT), NAT, (('CAR',),)), ('LAMBDA', P(NAT, P(NAT, NAT)), NAT, (('CDR',), ('CAR',))), ('LAMBDA', P(NAT, NAT), P(NAT, NAT), (('UNPAIR', 2), ('SWAP',), ('PAIR', 2))),
               ('LAMBDA', P(P(NAT, NAT), NAT), NAT, (('CAR',), ('CDR',))),      # the captured (left) type is compound
+              ('LAMBDA', P(P(NAT, P(NAT, P(NAT, NAT))), NAT), NAT, (('CAR',), ('GET', 5))),
               ('APPLY',), ('EXEC',), PUSH(NAT, i(2)), ('SWAP',), ('DIG', 2)])
 
 FAMS = ['comb', 'annot_text', 'annot_keys', 'adt', 'optlist', 'types_map', 'types_list', 'annot_lambda']
@@ -138,6 +140,31 @@ def unpacked_slots(init, env, prog, scheme, root_field=False):
     return out
 
 
+def hash_law(ctx):
+    """A value is one value at every annotated spelling of its type: equal, and (where hashable) hashed alike - pytezos keeps big_map keys and removed
+    keys in hashed containers, so two hashes for one key are two keys."""
+    seen = set()
+    for fname in ('comb', 'annot_keys', 'annot_lambda', 'adt'):
+        for init in vmfam.FAMILIES[fname]['inits']:
+            for t, v in init:
+                if (t, v) in seen or t[0] not in ('pair', 'or', 'option'):
+                    continue
+                seen.add((t, v))
+                try:
+                    x = vmreplay.make_item(t, v)
+                    hx = hash(x)
+                except TypeError:
+                    continue
+                for scheme in SCHEMES + ['field-leaves']:
+                    y = vmreplay.make_item(t, v, annotate=lambda tj: annotate_type(tj, scheme))
+                    ctx.count(('hash', t, v, scheme), nontrivial=True)
+                    ctx.replayed += 1
+                    if not (x == y) or hash(y) != hx:
+                        ctx.mismatch('C17:annotated:%s:%s' % (scheme, 'value-not-equal-to-itself' if not (x == y) else 'equal-values-hash-apart'),
+                                     'the value %s of type %s and the same value at the type annotated by scheme %s: equal=%s, same hash=%s' % (
+                                         to_json(v), to_json(t), scheme, x == y, hash(y) == hx), {'family': 'hash', 'type': to_json(t), 'value': to_json(v), 'scheme': scheme})
+
+
 def replay_fn(ctx, prop, fname, st):
     init, env, prog = st['init'], st['env'] if isinstance(st['env'], dict) else {}, st['hist']
     base = vmreplay.classify(st['status'], st['stack'], st['failv'], vmreplay.run_impl(init, env, prog))
@@ -235,14 +262,15 @@ def run(ctx):
     C01.ASPECTS['C17'] = {'status', 'value', 'type', 'failwith-value'}
     C01.run_families(ctx, 'C17', 'annot', fams, replay_fn=replay_fn)
     ill_typed(ctx)
+    hash_law(ctx)
     ctx.exhaustive = True
 
 
 def replay(ctx, rep):
     c = rep['case']
     tup = lambda x: tuple(tup(y) for y in x) if isinstance(x, list) else x
-    if c.get('family') == 'ill':
-        ill_typed(ctx)
+    if c.get('family') in ('ill', 'hash'):
+        ill_typed(ctx) if c.get('family') == 'ill' else hash_law(ctx)
         for m in ctx.mismatches:
             print('REPRODUCED', m.signature, m.detail[:800])
         return 1 if ctx.mismatches else 0
